@@ -78,6 +78,22 @@ CLAIMS = {
              "float(str) raises ValueError or returns; z3/cvc5 string theory (code points <= U+2FFFF). One genuine defect repaired "
              "(unbalanced ')' raised IndexError). Trusted: " + TB,
         technique="contract-based deductive verification (string VCs per path, z3 + cvc5) + bounded run-time-contract stand-in for clause 3"),
+    "C06": dict(
+        category="proof", design="DESIGN.md section 7 C06",
+        text="Contract-based deductive proof on the real DataLists.add_table/lookup_value/lookup_key, _NumbersModel.table_string "
+             "and get_storage_buffers_for_row (model.py): after add_table, for EVERY entry of a lookup list in ANY order (distinct "
+             "keys, any length - loop invariant over a symbolic list) a lookup by its key returns the list entry carrying that key, "
+             "key_index/by_value are consistent; lookup_key keeps the index, returns a key whose entry carries the value and "
+             "lookup_value(lookup_key(s)).string == s; table_string never takes its '' fallback for a key that is in the list; "
+             "get_storage_buffers_for_row returns for each column None iff its offset is negative, else the slice "
+             "[scale*offset : scale*next present offset or end] with scale 4 iff wide offsets (nested loop invariants, any row "
+             "length) - so both offset encodings read the same cells. Container forms and the row mapping: bounded stand-in only "
+             "(9 rewrites x fixtures, labelled bounded).",
+        note="Assumes: ghost view of TST.TableDataList (entries list + heap fields), protobuf object-store lookups bound to that view, "
+             "A-PB for the ListEntry constructor, @cache on add_table (IDX as class invariant), array('h', offsets) identity on int16. "
+             "Two genuine defects repaired (fix: commits - entries indexed only while keys ascend; rows matched by counting header "
+             "records, visible in tests/data/issue-66-collab.numbers). Trusted: " + TB,
+        technique="contract-based deductive verification (quantified VCs over symbolic lists/maps with Skolem spec functions, z3/cvc5) + bounded layout-rewrite stand-in"),
 }
 NA_REASON = "check not built yet (build in progress; see DESIGN.md section 7 for the plan)"
 
